@@ -184,8 +184,11 @@ ResDefault == Res("accept", "valid")
 -----------------------------------------------------------------------------
 \* Paths: d<era> = ServerSession.Elicit on a session of that era; m0728 = the request travels in InputRequests of a
 \* tools/call result to a 2026-07-28 client; m1125 = same handler, legacy client (the server bridges through Elicit);
-\* raw = a scripted peer writes elicitation/create on a 2025-11-25 session and reads the answer.
-Paths == {"d0618", "d1125", "d0728", "m0728", "m1125", "raw"}
+\* raw = a scripted peer writes elicitation/create on a 2025-11-25 session and reads the answer; rawc = the other way
+\* round: ServerSession.Elicit on a real server whose client is a scripted peer (2025-11-25) that declares what
+\* `decl` says and answers with exactly what `res` says - no client-side validation, no defaults ("handler" = the
+\* peer answers at all; otherwise it replies method-not-found).
+Paths == {"d0618", "d1125", "d0728", "m0728", "m1125", "raw", "rawc"}
 Era(path) == CASE path \in {"d0618"} -> "0618" [] path \in {"d0728", "m0728"} -> "0728" [] OTHER -> "1125"
 Decls == {"infer", "empty", "form", "url", "both"}
 Modes == {"unset", "form", "url", "bogus"}
@@ -214,7 +217,7 @@ CodeSchemaOK(s) ==
     [] s.root = "string" -> FALSE
     [] OTHER -> CodePropOK(s.p) /\ s.second # "bad"
 SchemaCases == UNION {{Case("schema", path, TRUE, "both", "unset", FALSE, FALSE, "normal", FALSE, s, rq, r) :
-                          path \in {"d1125", "m0728"}, rq \in BOOLEAN,
+                          path \in {"d1125", "m0728", "rawc"}, rq \in BOOLEAN,
                           r \in (IF CodeSchemaOK(s) \/ SchemaWF(s) THEN ResFor(s.p) ELSE {ResDefault})} :
                        s \in Schemas \ {SchNil}}
 SchemaCaseOK(c) == /\ (c.req => c.sch.root \in {"object", "notype"})
@@ -248,7 +251,8 @@ ReqWF(c) == /\ c.params = "normal"
                  [] EffMode(c) = "url" -> c.url /\ c.sch.root = "nil"
                  [] OTHER -> FALSE
 \* the requester may send it (A2).  m0728 is not gated by the SDK (X06 records that); the raw peer sends anyway.
-ServerPath(c) == c.path \in {"d0618", "d1125", "d0728", "m1125"}
+ServerPath(c) == c.path \in {"d0618", "d1125", "d0728", "m1125", "rawc"}
+SDKClient(c) == c.path # "rawc"
 MaySend(c) == /\ Era(c.path) # "0728"
               /\ Adv(c).present
               /\ EffMode(c) \in {"form", "url"} => Supports(Adv(c), EffMode(c))
@@ -318,6 +322,22 @@ ServerElicit(c) ==
        ELSE IF r.pv = "default" /\ ~DefSat(c.sch.p) THEN ErrOut(TRUE, r.asked, "local")
        ELSE r
 
+\* ServerSession.Elicit against the scripted client: only the server's own checks apply
+ServerElicitRawClient(c) ==
+  IF ~Adv(c).present THEN ErrOut(FALSE, 0, "local")
+  ELSE IF EffMode(c) = "form" /\ "form" \notin Adv(c).modes /\ "url" \in Adv(c).modes THEN ErrOut(FALSE, 0, "local")
+  ELSE IF EffMode(c) = "url" /\ "url" \notin Adv(c).modes THEN ErrOut(FALSE, 0, "local")
+  ELSE IF ~c.handler THEN ErrOut(TRUE, 0, "other")
+  ELSE IF c.res.act = "herr" THEN ErrOut(TRUE, 1, "other")
+  ELSE LET pass == Out(FALSE, TRUE, 1, "result", "none", IF c.res.act = "bogus" THEN "maybe" ELSE c.res.act,
+                       HCont(c.res.val), HPv(c.res.val), c.res.val = "extra", FALSE) IN
+       IF c.res.act # "accept" \/ c.res.val = "nil" THEN pass
+       ELSE IF c.sch.root = "nil" THEN pass
+       ELSE IF ~CodeSchemaOK(c.sch) THEN ErrOut(TRUE, 1, "local")
+       ELSE IF ~ValSat(c) THEN ErrOut(TRUE, 1, "local")
+       ELSE IF c.res.val = "empty" /\ HasDef(c.sch.p) THEN [pass EXCEPT !.pv = "default"]
+       ELSE pass
+
 Expected(c) ==
   CASE c.kind = "notif" ->
          IF c.params # "normal" THEN Crash
@@ -325,6 +345,7 @@ Expected(c) ==
     [] c.path \in {"d0618", "d1125", "d0728"} -> ServerElicit(c)
     [] c.path = "m1125" -> LET r == ServerElicit(c) IN IF r.ret = "error" THEN [r EXCEPT !.code = "other"] ELSE r
     [] c.path = "m0728" -> OverWire(ClientElicit(c, FALSE, EffMode(c)))
+    [] c.path = "rawc" -> ServerElicitRawClient(c)
     [] OTHER -> OverWire(ClientElicit(c, TRUE, c.mode))       \* raw
 
 -----------------------------------------------------------------------------
@@ -334,8 +355,8 @@ A2_Gate(c, o) == /\ (ServerPath(c) /\ o.sent) => MaySend(c)
                  /\ c.path = "m0728" => ~o.sent
 A3_WellFormedOnly(c, o) ==
   /\ o.asked <= 1
-  /\ o.asked = 1 => (c.handler /\ ReqWF(c))
-  /\ (c.kind # "notif" /\ ~ReqWF(c)) => o.ret = "error"
+  /\ (SDKClient(c) /\ o.asked = 1) => (c.handler /\ ReqWF(c))
+  /\ (SDKClient(c) /\ c.kind # "notif" /\ ~ReqWF(c)) => o.ret = "error"
   /\ (ServerPath(c) /\ ~MaySend(c)) => (o.ret = "error" /\ o.asked = 0)
 A4_OnlyOnAccept(c, o) ==
   (c.kind # "notif" /\ Admitted(c) /\ ReqWF(c) /\ DefSat(c.sch.p)) =>
@@ -370,8 +391,8 @@ Holds(c, o) == \A n \in Clauses : Clause(n, c, o)
 \* The named deviations: exactly where the code-shaped Expected breaks a property
 Deviation(c) ==
   CASE c.params # "normal" /\ (c.kind = "notif" \/ c.handler) -> "D1"
-    [] /\ c.kind = "schema" /\ c.sch.root \in {"object", "notype"} /\ c.sch.p.ty = "string" /\ c.sch.p.def = "badtype"
-       /\ CodeSchemaOK(c.sch) -> "D2"
+    [] /\ c.kind = "schema" /\ SDKClient(c) /\ c.sch.root \in {"object", "notype"} /\ c.sch.p.ty = "string"
+       /\ c.sch.p.def = "badtype" /\ CodeSchemaOK(c.sch) -> "D2"
     [] /\ c.kind = "schema" /\ c.req /\ c.res = Res("accept", "nil") /\ CodeSchemaOK(c.sch) /\ DefSat(c.sch.p) -> "D3"
     [] OTHER -> "none"
 
